@@ -103,7 +103,12 @@ func verifAnd(a, b bool) bool     { return a && b }
 func verifOr(a, b bool) bool      { return a || b }
 func verifImplies(a, b bool) bool { return !a || b }
 func verifYield()                 {}
+var verifParams map[string]int
+
 func verifParam(name string, def int) int {
+	if v, ok := verifParams[name]; ok {
+		return v
+	}
 	if s := os.Getenv("VERIF_PARAM_" + name); s != "" {
 		var v int
 		fmt.Sscanf(s, "%d", &v)
@@ -111,37 +116,85 @@ func verifParam(name string, def int) int {
 	}
 	return def
 }
+
+func verifNow() int64 { return 0 }
+
+// verifSetCase installs the tape and parameters of one replay case.
+func verifSetCase(params map[string]int, tape map[string]uint64) {
+	verifMu.Lock()
+	defer verifMu.Unlock()
+	verifTape = tape
+	if verifTape == nil {
+		verifTape = map[string]uint64{}
+	}
+	verifParams = params
+	verifCnt = map[string]int{}
+	verifFailed = nil
+	verifCovers = map[string]int{}
+}
 `
 
 const primsTestSource = `package PKG
 
 import (
+	"encoding/json"
 	"fmt"
 	"os"
 	"testing"
 )
 
-func verifReplayMain(t *testing.T, hs map[string]func()) {
-	name := os.Getenv("VERIF_HARNESS")
-	h := hs[name]
+type verifCase struct {
+	Harness string            ` + "`json:\"harness\"`" + `
+	Params  map[string]int    ` + "`json:\"params\"`" + `
+	Tape    map[string]uint64 ` + "`json:\"tape\"`" + `
+}
+
+func verifRunCase(idx int, c verifCase, hs map[string]func()) (status string) {
+	h := hs[c.Harness]
 	if h == nil {
-		t.Fatalf("unknown harness %q", name)
+		return "unknown-harness"
 	}
+	verifSetCase(c.Params, c.Tape)
+	status = "ok"
 	func() {
 		defer func() {
 			if p := recover(); p != nil {
 				if _, ok := p.(verifAssumeFalse); ok {
-					fmt.Println("VERIF-ASSUME-FALSE")
+					status = "assume-false"
 					return
 				}
 				fmt.Printf("VERIF-PANIC: %v\n", p)
-				t.Fail()
+				status = "panic"
 			}
 		}()
 		h()
 	}()
-	if len(verifFailed) > 0 {
-		t.Fail()
+	verifMu.Lock()
+	defer verifMu.Unlock()
+	if status == "ok" && len(verifFailed) > 0 {
+		status = "assert-fail"
+	}
+	return status
+}
+
+func verifReplayMain(t *testing.T, hs map[string]func()) {
+	var cases []verifCase
+	if p := os.Getenv("VERIF_REPLAY"); p != "" {
+		b, err := os.ReadFile(p)
+		if err != nil {
+			t.Fatal(err)
+		}
+		if err := json.Unmarshal(b, &cases); err != nil {
+			t.Fatal(err)
+		}
+	} else {
+		verifLoadTape()
+		cases = []verifCase{{Harness: os.Getenv("VERIF_HARNESS"), Tape: verifTape}}
+	}
+	for i, c := range cases {
+		fmt.Printf("VERIF-CASE-START %d %s\n", i, c.Harness)
+		st := verifRunCase(i, c, hs)
+		fmt.Printf("VERIF-CASE-RESULT %d %s\n", i, st)
 	}
 	fmt.Println("VERIF-REPLAY-DONE")
 }
